@@ -32,7 +32,7 @@ def dword : P (BitVec 32) := fun ts => (nat ts).bind fun (n, r) =>
 
 def hexWord : P (BitVec 32) := fun ts => (bytes ts).bind fun (b, r) =>
   match b with
-  | [a, b, c, d] => some (a ++ b ++ c ++ d, r)
+  | [a, b, c, d] => some (be32 a b c d, r)
   | _ => none
 
 /-- parse a value for the given shape -/
